@@ -25,8 +25,9 @@ exact guard):
     every leaf verified.  `Verify` now rejects a nil computed hash; the theorems
     below hold for EVERY list including the empty one (`empty_root_rejects`), and
     the old behaviour is recorded about `verifyOld` (`verifyOld_nil_root_accepts_anything`).
-    The same weakness is still present on the `SimpleValueOp` + `ProofOperators.Verify`
-    path (`valueOp_nil_root_accepts_anything`; oracle class nil-root-valueop).
+    The same weakness on the `SimpleValueOp` + `ProofOperators.Verify` path (oracle class
+    nil-root-valueop) was FIXED in /repo 4d9045b816 (`valueOp_rejects_non_positions`,
+    `valueOp_empty_root_rejects`; old behaviour: `valueOpVerifyOld_nil_root_accepts_anything`).
 -/
 namespace GnoVerif.C25
 
@@ -197,13 +198,27 @@ theorem verify_ok_imp_verifyOld_ok (H : Bytes → Bytes) (p : SimpleProof) (root
   have a2 : ¬ p.index < 0 := by omega
   simp [SimpleProof.verifyOld, a1, a2, c, e]
 
-/-- OPEN (oracle class nil-root-valueop): the `SimpleValueOp.Run` + `ProofOperators.Verify`
-path still compares a possibly-nil computed root with `bytes.Equal`, so against an empty
-root it accepts every `(key, value)` once `(Index, Total)` is not a position. -/
-theorem valueOp_nil_root_accepts_anything (H : Bytes → Bytes) (key value : Bytes) (aunts : List Bytes) (total index : Nat)
-    (h : total ≤ index) :
-    valueOpVerify H key value none ⟨total, index, some (leafHash H (mapLeaf H key value)), aunts⟩ = .ok () := by
+/-- REGRESSION RECORD (nil-root-valueop, fixed by 4d9045b816): the OLD `SimpleValueOp.Run` passed a
+nil computed root on to `ProofOperators.Verify`'s `bytes.Equal`, so against an empty root
+every `(key, value)` was accepted once `(Index, Total)` is not a position. -/
+theorem valueOpVerifyOld_nil_root_accepts_anything (H : Bytes → Bytes) (key value : Bytes) (aunts : List Bytes)
+    (total index : Nat) (h : total ≤ index) :
+    valueOpVerifyOld H key value none ⟨total, index, some (leafHash H (mapLeaf H key value)), aunts⟩ = .ok () := by
+  simp [valueOpVerifyOld, SimpleProof.computeRootHash, computeHashFromAunts, bytesEqual, h]
+
+/-- …and the current `Run` fails on exactly those inputs, whatever the root (every hash). -/
+theorem valueOp_rejects_non_positions (H : Bytes → Bytes) (key value : Bytes) (aunts : List Bytes)
+    (total index : Nat) (root : Option Bytes) (h : total ≤ index) :
+    valueOpVerify H key value root ⟨total, index, some (leafHash H (mapLeaf H key value)), aunts⟩
+      = .error .invalidProof := by
   simp [valueOpVerify, SimpleProof.computeRootHash, computeHashFromAunts, bytesEqual, h]
+
+/-- Nothing is accepted by the `SimpleValueOp` path against a nil or empty root (the root of an
+empty map). -/
+theorem valueOp_empty_root_rejects {H : Bytes → Bytes} {sz : Nat} (hsz : ∀ x, (H x).length = sz) (hpos : 0 < sz)
+    (key value : Bytes) (p : SimpleProof) (root : Option Bytes) (hroot : root.getD [] = []) :
+    valueOpVerify H key value root p ≠ .ok () :=
+  fun hv => empty_root_rejects hsz hpos p root _ hroot (valueOp_ok_verify hv)
 
 /-- FINDING total-malleable — for EVERY hash: the genuine proof of item 0 of a
 5-item list still verifies after `Total` is altered from 5 to 7 (one bit), and the
@@ -362,39 +377,26 @@ theorem map_completeness (H : Bytes → Bytes) (entries : List (Bytes × Bytes))
     simp only [show (smSort (smFromEntries H entries)).map KV.bytes = items from rfl, hp]
   · simp [hj, hjeq]
   · rw [hitem] at hv
-    obtain ⟨_, _, hl, _, hc⟩ := (verify_ok_iff H p _ _).1 hv
-    unfold valueOpVerify
+    obtain ⟨_, _, hl, hn, hc⟩ := (verify_ok_iff H p _ _).1 hv
     have hroot : simpleHashFromMap H entries = simpleHashFromByteSlices H items := rfl
-    rw [hroot]
-    have hl' : bytesEqual (some (leafHash H (mapLeaf H key value))) p.leafHash = true := by
-      unfold bytesEqual at hl ⊢; have := eq_of_beq hl; rw [this]; exact beq_self_eq_true _
-    have hc' : bytesEqual (simpleHashFromByteSlices H items) (p.computeRootHash H) = true := by
-      unfold bytesEqual at hc ⊢; have := eq_of_beq hc; rw [this]; exact beq_self_eq_true _
-    simp [hl', hc']
+    rw [hroot, valueOp_ok_iff]
+    refine ⟨bytesEqual_symm hl, ?_⟩
+    cases hcr : p.computeRootHash H with
+    | none => exact absurd hcr hn
+    | some c => rw [hcr] at hc; exact ⟨c, rfl, bytesEqual_symm hc⟩
 
-/-- Map soundness (non-empty map): if the `SimpleValueOp` path accepts `(key, value)`
-against the map root, then `key` is in the map with a value `v'` that is `value` —
-or `(v', value)` is a collision of `H`, or `collisionOf` computes one from the proof.
+/-- Map soundness, for EVERY map (the empty one included — nothing is accepted against its nil
+root since /repo 4d9045b816): if the `SimpleValueOp` path accepts `(key, value)` against the
+map root, then `key` is in the map with a value `v'` that is `value` — or `(v', value)` is a
+collision of `H`, or `collisionOf` computes one from the proof.
 Uses: the length-prefixed `KVPair.Bytes` encoding is injective. -/
 theorem map_soundness_partial {H : Bytes → Bytes} {sz : Nat} (hsz : ∀ x, (H x).length = sz) (hpos : 0 < sz)
-    (entries : List (Bytes × Bytes)) (key value : Bytes) (p : SimpleProof) (hne : entries ≠ [])
+    (entries : List (Bytes × Bytes)) (key value : Bytes) (p : SimpleProof)
     (hv : valueOpVerify H key value (simpleHashFromMap H entries) p = .ok ()) :
     (∃ v', (key, v') ∈ entries ∧ (v' = value ∨ IsCollision H (v', value))) ∨
       IsCollision H (collisionOf H ((smSort (smFromEntries H entries)).map KV.bytes) p (mapLeaf H key value)) := by
   let items := (smSort (smFromEntries H entries)).map KV.bytes
-  have hine : items ≠ [] := by
-    intro hc
-    have h1 : (smSort (smFromEntries H entries)).length = 0 := by simpa [items] using congrArg List.length hc
-    have h2 := (List.mergeSort_perm (smFromEntries H entries) kvLe).length_eq
-    rw [smFromEntries_eq_map] at h2
-    unfold smSort at h1
-    rw [smFromEntries_eq_map, h2, List.length_map] at h1
-    exact hne (List.length_eq_zero_iff.mp h1)
-  have hroot : simpleHashFromMap H entries = some ((build items).hash H) := hashFrom_of_ne_nil hine
-  have hr : (build items).hash H ≠ [] := ne_nil_of_len hpos (tree_hash_len hsz _)
-  rw [hroot] at hv
-  have hv' := valueOp_ok_verify hr hv
-  rw [← hashFrom_of_ne_nil hine] at hv'
+  have hv' : p.verify H (simpleHashFromByteSlices H items) (mapLeaf H key value) = .ok () := valueOp_ok_verify hv
   rcases soundness_membership_partial hsz hpos items p _ hv' with ⟨j, hj, _⟩ | h
   · left
     have hmem : mapLeaf H key value ∈ items := List.mem_of_getElem? hj
@@ -411,10 +413,10 @@ theorem map_soundness_partial {H : Bytes → Bytes} {sz : Nat} (hsz : ∀ x, (H 
     · right; exact ⟨heq, hvv⟩
   · right; exact h
 
-example : ∃ (entries : List (Bytes × Bytes)) (key value : Bytes) (p : SimpleProof), entries ≠ [] ∧
+example : ∃ (entries : List (Bytes × Bytes)) (key value : Bytes) (p : SimpleProof),
     valueOpVerify toyH key value (simpleHashFromMap toyH entries) p = .ok () := by
   obtain ⟨_, _, _, _, p, _, _, h⟩ := map_completeness toyH [([1], [10]), ([2], [20])] [2] [20] (by simp)
-  exact ⟨_, _, _, p, by simp, h⟩
+  exact ⟨_, _, _, p, h⟩
 
 /-! ## instantiation with the real hash (uses only `sha256_length`) -/
 
